@@ -6,8 +6,9 @@ TRUSTED = ["python ast (stdlib)", "RxPY: Subject delivers synchronously in subsc
 
 
 def rules_for(prop):
-    from .rules import mx
+    from .rules import mx, st
     table = {
+        "C02": st.RULES,
         "C03": mx.RULES,
     }
     return table.get(prop)
